@@ -574,12 +574,22 @@ func (s *Sim) Run() Outcome {
 				// a ticker that keeps the run from resting is served with growing
 				// strides (a process that was not scheduled for a while misses ticks
 				// the same way): code that polls for a deadline minutes away is reached
-				if p := s.tickerPeriod(d); p > 0 && advN > 8 {
+				// (the same for a loop that re-arms a Sleep or a time.After: after
+				// eight advances in one call the strides grow, whatever kind of timer
+				// is next - timers that fall inside a stride fire late, in order)
+				if advN > 8 {
 					k := advN - 8
 					if k > 12 {
 						k = 12
 					}
-					d += p * time.Duration(int64(1)<<uint(k))
+					stride := d
+					if p := s.tickerPeriod(d); p > 0 {
+						stride = p
+					}
+					if stride < time.Millisecond {
+						stride = time.Millisecond
+					}
+					d += stride * time.Duration(int64(1)<<uint(k))
 				}
 				time.Sleep(d)
 				s.SimTime += d
